@@ -263,11 +263,12 @@ theorem cand_to_ligMatch (ign : Glyph → Bool) (rs : List Rule) (hk : ∀ r ∈
     | nil => simp [enumerate] at hseq
     | cons t ts =>
       obtain ⟨a, rest', e, ha, hr'⟩ := (mem_enumerate_cons t ts _).mp hseq
-      obtain ⟨rfl, rfl⟩ := List.cons.inj e
+      obtain ⟨e1, e2⟩ := List.cons.inj e
+      subst e1 e2
       refine ⟨_, hr, ?_⟩
-      have hg : t.has a = true := by simpa [GC.has] using ha
-      have := (matchFwd_enum ign suf ts 1 ps').mpr ⟨rest', hr', hm⟩
-      simp [Src.ligMatch, hg, this, enumerate_length ts rest' hr']
+      have hg : t.has g = true := by simpa [GC.has] using ha
+      have := (matchFwd_enum ign suf ts 1 ps').mpr ⟨rest, hr', hm⟩
+      simp [Src.ligMatch, hg, this, enumerate_length ts rest hr']
   | _ => simp [Rule.kind] at hkr
 
 /-- **Core of the ligature lookup**: trying the candidates longest first gives what the longest
@@ -343,5 +344,92 @@ theorem foldl_add_ligature (fx : Fixes) (root : Nat) (named : String → LookupI
       simp only [List.foldl_cons, Builder.add, List.flatMap_cons, List.foldl_append, ligPairs]
       rw [ih ht, List.foldl_map]
     | _ => simp [Rule.kind] at hr
+
+theorem ligPairs_seqs (rs : List Rule) (hk : ∀ r ∈ rs, r.kind = .ligature) :
+    (rs.flatMap ligPairs).map (·.1) = rs.flatMap Wf.ligSeqs := by
+  induction rs with
+  | nil => rfl
+  | cons r rs ih =>
+    have hr := hk r (by simp)
+    simp only [List.flatMap_cons, List.map_append, ih (fun r' h => hk r' (by simp [h]))]
+    cases r <;> simp_all [Rule.kind, ligPairs, Wf.ligSeqs, Function.comp_def]
+
+theorem ligPairs_nonempty (rs : List Rule) (hne : ∀ r ∈ rs, ∀ ts x, r = Rule.ligature ts x → ts ≠ []) :
+    ∀ p ∈ rs.flatMap ligPairs, p.1 ≠ [] := by
+  intro p hp
+  obtain ⟨r, hr, hpr⟩ := List.mem_flatMap.mp hp
+  cases r with
+  | ligature ts x =>
+    simp only [ligPairs, List.mem_map] at hpr
+    obtain ⟨seq, hseq, rfl⟩ := hpr
+    have hts := hne _ hr ts x rfl
+    cases ts with
+    | nil => exact absurd rfl hts
+    | cons t ts =>
+      obtain ⟨a, rest, rfl, _, _⟩ := (mem_enumerate_cons t ts seq).mp hseq
+      simp
+  | _ => simp [ligPairs] at hpr
+
+theorem lookup_map_lig (m : LigMap) (g : Glyph) :
+    (m.map fun (g, ligs) => (g, (sortLigs ligs).map fun (comps, lig) => (lig, comps))).lookup g
+      = (m.lookup g).map fun ligs => (sortLigs ligs).map fun (comps, lig) => (lig, comps) := by
+  induction m with
+  | nil => rfl
+  | cons p m ih =>
+    obtain ⟨a, b⟩ := p
+    simp only [List.map_cons, List.lookup]
+    split <;> simp_all
+
+/-- **Ligature substitution lookups** (`sub a [b c] by d;`): the `LigatureSubst` subtable built from
+    the rules, tried at any position of any string under any ignore set, does what the longest
+    matching rule says — provided no component sequence is given twice and every rule has
+    components. -/
+theorem lig_lookup_correct (fx : Fixes) (root : Nat) (named : String → LookupId) (rs : List Rule)
+    (hk : ∀ r ∈ rs, r.kind = .ligature) (hnd : (rs.flatMap Wf.ligSeqs).Nodup)
+    (hne : ∀ r ∈ rs, ∀ ts x, r = Rule.ligature ts x → ts ≠ [])
+    (ign : Glyph → Bool) (alt : Nat) (rev : List Glyph) (g : Glyph) (suf : List Glyph) :
+    (buildSubtables (rs.foldl (Builder.add fx root named) (.ligature []))).findSome?
+        (fun st => OT.simpleSubtableStep ign alt st rev g suf)
+      = Src.ligStep ign rs rev g suf := by
+  have hnd' : ((rs.flatMap ligPairs).map (·.1)).Nodup := by rw [ligPairs_seqs rs hk]; exact hnd
+  rw [foldl_add_ligature fx root named rs hk]
+  have hmap := ligMap_fold (rs.flatMap ligPairs) [] [] (by intro g; simp [candsOf, List.lookup]) (by simpa using hnd')
+    (ligPairs_nonempty rs hne)
+  simp only [List.nil_append] at hmap
+  simp only [Src.ligStep, ← lig_core ign rs hk hnd' g suf]
+  generalize hM : (rs.flatMap ligPairs).foldl
+    (fun m (p : List Glyph × Glyph) => if ligCanAdd m p.1 p.2 then ligInsert m p.1 p.2 else m) [] = M at hmap
+  have hg := hmap g
+  simp only [buildSubtables]
+  split
+  · rename_i hempty
+    have : M = [] := List.isEmpty_iff.mp hempty
+    subst this
+    simp only [List.lookup, Option.getD_none] at hg
+    rw [← hg]
+    simp [sortLigs]
+  · simp only [List.findSome?_cons, List.findSome?_nil, OT.simpleSubtableStep, buildLig, lookup_map_lig]
+    cases hq : M.lookup g with
+    | none =>
+      rw [hq] at hg
+      simp only [Option.getD_none] at hg
+      rw [← hg]
+      simp [sortLigs]
+    | some ligs =>
+      rw [hq] at hg
+      simp only [Option.getD_some] at hg
+      subst hg
+      simp only [Option.map_some]
+      rw [List.findSome?_map]
+      have : ((fun (x : Glyph × List Glyph) =>
+          match x with
+          | (lig, comps) => Option.map (fun ps => ligResult lig suf (0 :: ps)) (matchFwd ign (List.map (fun c y => c == y) comps) suf 1)) ∘
+            fun (x : List Glyph × Glyph) => match x with | (comps, lig) => (lig, comps)) = candTry ign suf := by
+        funext c
+        obtain ⟨comps, lig⟩ := c
+        rfl
+      rw [this]
+      generalize List.findSome? (candTry ign suf) (sortLigs (candsOf (List.flatMap ligPairs rs) g)) = o
+      cases o <;> rfl
 
 end Fontc.FeaCompile
